@@ -1118,3 +1118,12 @@ pub fn c_sqrt32_fn(x: f32) -> f32 {
     unsafe { SQRT32_MEMO = (x.to_bits(), r.to_bits(), true); }
     r
 }
+
+/// sqrt replaced by a constant (harnesses about algebraic structure only: the value is irrelevant, but a
+/// symbolic divisor duplicated in two runs does not finish)
+pub fn c_sqrt64_const(_x: f64) -> f64 {
+    3.25
+}
+pub fn c_sqrt32_const(_x: f32) -> f32 {
+    3.25
+}
